@@ -106,6 +106,7 @@ class G:
         r = self.rng; q = r.random()
         if self.numeric1() and not self.kinds and self.unit_ok and r.random() < 0.35:
             self.emit('dd_app alias'); self.kinds.append('A')
+            if r.random() < 0.35: self.emit('dd_arr unit %s' % unit(r, True))       # non-SI unit under a sole alias: must be refused
         elif q < 0.2:
             n = r.choice([0, 0, 1, 3, 6])
             self.emit('dd_app set %s' % lst([S(r.choice(LABELS + ['', 'a', 'b'])) for _ in range(n)])); self.kinds.append('T')
@@ -155,7 +156,9 @@ class G:
         if q < 0.3: self.emit('dd_arr label %s' % r.choice(['~', label(r)]))
         elif q < 0.6:
             sole_alias = self.kinds == ['A']
-            if r.random() < 0.25 and not sole_alias:
+            if sole_alias and r.random() < 0.35:
+                self.emit('dd_arr unit %s' % unit(r, True))                              # must be refused, the unit stays
+            elif r.random() < 0.25 and not sole_alias:
                 self.emit('dd_arr unit %s' % unit(r, True)); self.unit_ok = False
             else:
                 u = r.choice(UNITS_OK)
